@@ -26,6 +26,7 @@ Reset ==
   /\ started' = {} /\ pend' = [t \in Topics |-> Absent] /\ hand' = [t \in Topics |-> Absent]
   /\ inflight' = {} /\ hlock' = [t \in Topics |-> ""] /\ handed' = <<>> /\ fsent' = <<>> /\ th' = [t \in Threads |-> InitThread(t)]
   /\ ev' = ""
+  /\ startedAt' = [t \in Topics |-> 0] /\ epoch' = 0 /\ lastGC' = 0 /\ used' = [t \in Topics |-> 0] /\ swept' = {} /\ lateIds' = {}
   /\ tid' = Line.t /\ drift' = "" /\ ohanded' = <<>> /\ osent' = {} /\ oleft' = FALSE
 
 Ids(s) == [i \in DOMAIN s |-> s[i].id]
@@ -54,10 +55,12 @@ StepEv ==
                         ELSE IF {<<x[1], x[2]>> : x \in Rng(Line.infl)} # inflight' THEN "in-flight bookkeeping differs @line " \o ToString(l)
                         ELSE IF Line.handed # handed' THEN "hand-off log differs @line " \o ToString(l)
                         ELSE IF Line.fsent # fsent' THEN "forwarded sends differ @line " \o ToString(l)
+                        ELSE IF Line.epoch # epoch' THEN "epoch differs @line " \o ToString(l)
                         ELSE ""
   /\ ohanded' = Line.handed /\ osent' = Rng(Line.fsent)
   \* observed: a message is still buffered for a topic on which the party has sent, or a hand-over queue still exists
-  /\ oleft' = \E i \in DOMAIN Line.pend : (Line.pend[i].has /\ Line.pend[i].t \in Rng(Line.fsent)) \/ Line.hand[i].has
+  \* (a topic whose started mark the collector has swept holds later arrivals again, by design)
+  /\ oleft' = \E i \in DOMAIN Line.pend : (Line.pend[i].has /\ Line.pend[i].t \in Rng(Line.fsent) /\ Line.pend[i].t \notin swept') \/ Line.hand[i].has
   /\ UNCHANGED tid
 
 SkipEv == Line.e = "skip" /\ UNCHANGED <<vars, tid, drift, ohanded, osent, oleft>>
